@@ -69,7 +69,7 @@ theorem inv_conv {s s' : State} {a b dt it : Nat} (hi : Inv s)
         · cases h
         · rename_i p1 c1 hr
           injection h with h; subst h
-          obtain ⟨d, hp1⟩ := delta_assign hr hi.1
+          obtain ⟨d, hp1⟩ := delta_convertFrom hr hi.1
           refine inv_setSlot hi hc ?_ hp1
           rw [optIds_some, ← ownIds_getD_empty (s.slot a)]; exact d
 
